@@ -77,6 +77,8 @@ fn te_header(te: &Value, rng: &mut Rng) -> Option<String> {
             "1" => [";q=1", "; q=1.0", ";q=1.000"][rng.below(3)].to_string(),
             "0.5" => [";q=0.5", "; q=0.5", ";q=0.50"][rng.below(3)].to_string(),
             "0.001" => ";q=0.001".to_string(),
+            "0.0005" => [";q=0.0005", "; q=0.00050"][rng.below(2)].to_string(),
+            "0.5009" => ";q=0.5009".to_string(),
             "0" => [";q=0", ";q=0.0", "; q=0.000"][rng.below(3)].to_string(),
             // (a weight is 0 .. 1 with at most three decimals: what parses as a float but is no such number is malformed too)
             _ => [";q=abc", ";q=", ";q=1..0", ";q=inf", ";q=-inf", ";q=NaN", ";q=1e999", ";q=Infinity"][rng.below(8)].to_string(),
